@@ -4,6 +4,25 @@ NOTES = ("Technique: machine-checked proof in Lean 4 about a hand-written execut
          "correspondence run on every check (DESIGN.md). fix: commits in /repo are listed in known_findings.json.")
 NOT_APPLICABLE = {}
 CHECKS = {
+    "C10": {
+        "text": ("Lean theorems (unbounded): core pruning lemma for the parent-result matcher over arbitrary pattern lists (prune_core: under the semantic "
+                 "prune condition a negative verdict at a directory stays negative for every descendant); soundness of the syntactic test with a single trim "
+                 "for the shapes t, t/*, t/**, t/*/** (prune_syntactic_sound); kernel-checked witness that the double trim was unsound (f9_witness). "
+                 "Correspondence: moby/patternmatcher vs the Lean matcher (regexp translation with exact/prefix/suffix shortcuts, rune semantics) on 30k "
+                 "(pattern list, path) pairs; NewFilterFS.Walk vs the transcribed callback + WalkDir driver on trees x pattern lists x map tables; oracle: "
+                 "the naive reference (stateless matcher on every entry + ancestors) and the no-pruning run."),
+        "note": ("Trusted: Lean kernel + standard axioms; patternmatcher modelled for a declared fragment; the lift from prune_core/prune_syntactic_sound to "
+                 "'filterWalk with pruning = filterWalk without' over the transcribed callback is by execution (both variants are run on every case), not yet a theorem. "
+                 "Known finding F5 (parent-result vs stateless matcher under negations)."),
+    },
+    "C11": {
+        "text": ("Lean theorems (unbounded): the hard-link reset announces a link whose source is not in the view as a plain entry (reset_promotes), re-points "
+                 "later members to it (reset_relinks), leaves other entries alone (reset_keeps_plain). Correspondence: real Send over NewFilterFS(view) "
+                 "(hard-link groups straddling included/excluded paths) + Receive: STAT log vs filterWalk + reset model, executable closure check of link names, "
+                 "destination = filtered view (C01 spec); Walk vs Open agreement on every regular file."),
+        "note": ("Trusted: Lean kernel + standard axioms; closure of link names over whole listings is checked by execution per case (linksClosed), the general "
+                 "theorem needs the canonical-link hypothesis of C09 and is not proved yet; FollowPaths and nested filter stacks are not generated yet. Known finding F5."),
+    },
     "C20": {
         "text": ("Lean theorems (unbounded): the varint codec round-trips every 64-bit value (varint_roundtrip); any sequence of messages framed with a 4-byte "
                  "big-endian length is read back identical and in order, independent of fragmentation (frames_roundtrip). The generated UnmarshalVT of Stat and "
